@@ -54,6 +54,13 @@ theorem tie_reader_literals :
     Tw.Gen.Packet7.lits_needs_decompression = [0, 0] ∧
     Tw.Gen.Packet7.lits_next_warn = [0, 0, 0, 1] ∧ Tw.Gen.Packet7.lits_read_chunk_header = [0] := by decide
 
+/-- Tie: the buffer size the doc comments of `Packet::read` (both files) ask the caller for is the one the
+code asserts and the theorems below assume (`MAX_PACKETSIZE`).  Before the doc repair the comments said
+`MAX_PAYLOAD` (1390): a caller following them panicked on every call. -/
+theorem tie_documented_buffer_size :
+    Tw.Gen.Packet6.READ_BUFFER_DOCUMENTED = Tw.Gen.Packet6.MAX_PACKETSIZE ∧
+    Tw.Gen.Packet7.READ_BUFFER_DOCUMENTED = Tw.Gen.Packet7.MAX_PACKETSIZE := by decide
+
 /-! ## no panic, no divergence -/
 
 /-- 0.6 `Packet::read` never panics: for every byte string, every token hint and every scratch buffer
